@@ -338,49 +338,58 @@ Qed.
 (* ------------------------------------------------------------------ *)
 (* the serial state: published window = window; serial.nextJobID <= nextJobID *)
 
+Lemma awake_initseq p : awake p = CInitSeq -> p = CInitSeq.
+Proof. destruct p; cbn; intros X; try discriminate; reflexivity. Qed.
+
 Lemma srok_worker_step cfg t s s' : KInv cfg s -> SrOk s -> worker_step cfg t s = Some s' -> SrOk s'.
 Proof.
-  intros K (S1 & S2) H. destruct (worker_step_aux cfg t s s' H) as (Em & _). unfold SrOk. rewrite Em.
+  intros K (S1 & S2) H. destruct (worker_step_aux cfg t s s' H) as (Em & Ep & _). unfold SrOk. rewrite Em.
   destruct (worker_sr cfg t s s' H) as [E|[(w & Hw & Epc & Emine & Esn & Esw & Elw)|(w & Hw & Epc & Ele & Esn & Esw & Elw)]].
-  - rewrite E. auto.
+  - rewrite E. split; [exact S1|]. destruct S2 as [S2|(X & Y)]; [left; exact S2|right]. split; [|exact Y].
+    apply awake_initseq. rewrite Ep, X. reflexivity.
   - destruct (k_wrk _ _ K t w Hw) as (i & (X & Y) & Ek & _); [rewrite Epc; reflexivity|].
     assert (Ei : j_id (getj s (w_slot w)) = i) by (rewrite Ek; apply (k_ids _ _ K); split; auto).
-    split; [rewrite Esw, Elw; destruct (ldm (mt s)); congruence|]. rewrite Esn, Emine, Ei. lia.
+    split; [rewrite Esw, Elw; destruct (ldm (mt s)); congruence|]. left. rewrite Esn, Emine, Ei. lia.
   - destruct (k_wrk _ _ K t w Hw) as (i & (X & Y) & Ek & _); [rewrite Epc; reflexivity|].
     assert (Ei : j_id (getj s (w_slot w)) = i) by (rewrite Ek; apply (k_ids _ _ K); split; auto).
-    split; [rewrite Esw, Elw, S1; reflexivity|]. rewrite Esn, Ei. lia.
+    split; [rewrite Esw, Elw, S1; reflexivity|]. left. rewrite Esn, Ei. lia.
 Qed.
 
 Lemma srok_caller_step cfg w s s' : TInv cfg s -> SrOk s -> caller_step cfg w s = Some s' -> SrOk s'.
 Proof.
-  intros (K & A) (S1 & S2) H. pose proof (k_pc _ _ K) as P. unfold PcInv in P. destruct P as (PA & PB & _).
-  assert (Hgr : forall x, GR cfg s x -> SrOk x).
-  { intros x ((Es & _) & En & _). unfold SrOk. rewrite Es, En. auto. }
-  assert (Hgr' : forall x0 x, sr x0 = sr s -> next (mt x0) = next (mt s) -> GR cfg x0 x -> SrOk x).
-  { intros x0 x Es0 En0 ((Es & _) & En & _). unfold SrOk. rewrite Es, Es0, En, En0. auto. }
+  intros (K & A) (S1 & S2') H. pose proof (k_pc _ _ K) as P. unfold PcInv in P. destruct P as (PA & PB & _).
+  assert (Hgr0 : s_next (sr s) <= next (mt s) -> forall x, GR cfg s x -> SrOk x).
+  { intros S2 x ((Es & _) & En & _). unfold SrOk. rewrite Es, En. auto. }
+  assert (Hgr0' : s_next (sr s) <= next (mt s) -> forall x0 x, sr x0 = sr s -> next (mt x0) = next (mt s) -> GR cfg x0 x -> SrOk x).
+  { intros S2 x0 x Es0 En0 ((Es & _) & En & _). unfold SrOk. rewrite Es, Es0, En, En0. auto. }
   unfold caller_step in H. cbn zeta in H.
   destruct (c_pc (cl s)) eqn:Epc; try discriminate.
+  all: try (assert (S2 : s_next (sr s) <= next (mt s)) by (destruct S2' as [S2|(X & _)]; [exact S2|discriminate]);
+            pose proof (Hgr0 S2) as Hgr; pose proof (Hgr0' S2) as Hgr').
   - destruct (_ <? _); inv_some H; apply Hgr; [apply gr_after_inuse|apply gr_scan_inuse].
   - destruct (overlap_win _ _); inv_some H; [split; auto|apply Hgr; apply gr_move_prefix].
   - destruct (overlap_win _ _); inv_some H; [split; auto|apply Hgr; apply gr_hand_out].
-  - inv_some H. unfold SrOk. cbn [sr mt set_cpc set_cl set_mt set_job set_jobs set_pl mt_ring next]. split; [exact S1|lia].
-  - destruct (_ || _); inv_some H; unfold SrOk; cbn [sr mt set_cpc set_cl set_mt set_ws set_pl mt_ring next]; split; auto; lia.
+  - inv_some H. unfold SrOk. cbn [sr mt set_cpc set_cl set_mt set_job set_jobs set_pl mt_ring next]. split; [exact S1|left; lia].
+  - destruct (_ || _); inv_some H; unfold SrOk; cbn [sr mt set_cpc set_cl set_mt set_ws set_pl mt_ring next]; split; auto; left; lia.
   - destruct (_ && _); inv_some H; [split; auto|apply Hgr; apply gr_flush_body].
   - inv_some H. eapply Hgr'; [..|apply gr_complete_job]; reflexivity.
   - unfold jslot in H. destruct (negb _); inv_some H; [split; auto|].
     eapply Hgr'; [..|apply gr_wait_all]; reflexivity.
   - inv_some H. eapply Hgr'; [..|apply gr_rel_scan]; [reflexivity|reflexivity|].
     cbn [mt zero_slot set_job set_jobs set_pl]. destruct (k_pc _ _ K) as (_ & _ & _ & D & _). rewrite Epc in D. cbn in D. lia.
-  - (* CInitBuf: both counters are reset; the windows are kept *)
-    match type of H with (if _ then Some (set_cpc _ ?x) else _) = _ => set (s1 := x) in * end.
-    assert (S0 : SrOk s1) by (unfold SrOk; cbn [sr mt s1 set_sr set_mt s_lw s_w s_next next]; split; [exact S1|lia]).
-    destruct (ldm (mt s)); inv_some H; [exact S0|].
-    destruct S0 as (T1 & T2). destruct (gr_finish_op cfg s1 (ROk 0)) as ((Es & _) & En & _). unfold SrOk. rewrite Es, En. auto.
-  - (* CInitSeq: both windows are reset *)
-    inv_some H.
-    match goal with |- SrOk (finish_op cfg ?x _) => set (s1 := x) end.
-    destruct (gr_finish_op cfg s1 (ROk 0)) as ((Es & _) & En & _). unfold SrOk. rewrite Es, En.
-    cbn [sr mt s1 set_sr set_pl s_lw s_w s_next]. split; [reflexivity|exact S2].
+  - (* CInitBuf: nextJobID is reset; serial.nextJobID too when the frame has LDM, else after ZSTDMT_setNbSeq; the windows are kept *)
+    match type of H with Some (set_cpc _ ?x) = _ => set (s1 := x) in * end.
+    inv_some H. unfold SrOk. cbn [cl mt sr s1 set_cpc set_cl cl_pc c_pc set_sr set_mt next ldm].
+    destruct (ldm (mt s)); (split; [exact S1|]); [left; cbn; lia|right; split; reflexivity].
+  - (* CInitSeq: both windows are reset (LDM), or serial.nextJobID is (no LDM) *)
+    destruct (ldm (mt s)) eqn:Eldm; inv_some H.
+    + match goal with |- SrOk (finish_op cfg ?x _) => set (s1 := x) end.
+      destruct (gr_finish_op cfg s1 (ROk 0)) as ((Es & _) & En & _). unfold SrOk. rewrite Es, En.
+      cbn [sr mt s1 set_sr set_pl s_lw s_w s_next]. split; [reflexivity|left].
+      destruct S2' as [S2|(_ & X)]; [exact S2|congruence].
+    + match goal with |- SrOk (finish_op cfg ?x _) => set (s1 := x) end.
+      destruct (gr_finish_op cfg s1 (ROk 0)) as ((Es & _) & En & _). unfold SrOk. rewrite Es, En.
+      cbn [sr mt s1 set_sr set_pl s_lw s_w s_next]. split; [exact S1|left; lia].
 Qed.
 
 (* ------------------------------------------------------------------ *)
